@@ -787,3 +787,13 @@ CORPUS += [
     V("C06", "mtvrp-checker-clock-adds-distance-again", _ME, 'curr_time + dist / td["speed"].squeeze(-1),', "curr_time + dist,", "C06.h"),
     V("C06", "mtvrp-checker-return-times-speed", _ME, 'td["time_windows"][..., :, 0] + d_j0 / td["speed"] + td["service_time"]', 'td["time_windows"][..., :, 0] + d_j0 * td["speed"] + td["service_time"]', "C06.h"),
 ]
+
+# ---- FJSP text format on the value graph
+CORPUS += [
+    V("C19", "fjsp-cursor-skips-count-token", FPF, "idx += 1 + num_pairs", "idx += num_pairs", "C19.c"),
+    V("C19", "fjsp-machines-read-from-duration-slots", FPF, "machines = line[idx + 1 : idx + 1 + num_pairs : 2]", "machines = line[idx + 2 : idx + 2 + num_pairs : 2]", "C19.c"),
+    V("C19", "fjsp-pairs-zipped-reversed", FPF, "operations.append([(m, d) for m, d in zip(machines, durations)])", "operations.append([(m, d) for m, d in zip(durations, machines)])", "C19.c"),
+    V("C19", "fjsp-writer-duration-first", FPF, "job.extend([int(machine.item()) + 1, int(duration.item())])", "job.extend([int(duration.item()), int(machine.item()) + 1])", "C19.c"),
+    V("C19", "eq-fjsp-reader-reassociated", FPF, "        num_pairs = int(line[idx]) * 2\n        machines = line[idx + 1 : idx + 1 + num_pairs : 2]\n        durations = line[idx + 2 : idx + 2 + num_pairs : 2]",
+      "        n2 = 2 * int(line[idx])\n        machines = line[1 + idx : idx + n2 + 1 : 2]\n        durations = line[2 + idx : 2 + idx + n2 : 2]\n        num_pairs = n2", None),
+]
